@@ -3,10 +3,10 @@ CONSTANTS
   W = 1
   MA = 3
   LB = 6
-  MaxCep = 7
-  CapFix = TRUE
-  MaxUtt = 1
-  StartedFix = FALSE
+  MaxCep = 9
+  CapFix = FALSE
+  MaxUtt = 2
+  StartedFix = TRUE
 INVARIANTS NoRingOverrun SearchedAreWindows CompleteAtEnd
 VIEW View
 CHECK_DEADLOCK FALSE
